@@ -71,10 +71,10 @@ Section System.
     generate_errors (sc_exp C) known ds (log_max_len g + call_log_adj (sc_exp C)) (ds_max_len g + call_ds_adj (sc_exp C)) (message_format g).
 
   (** everything one wrapped call hands to the operating system before the real exec *)
-  Definition log_exec (file : option (list byte)) : res (list record) :=
-    let g := settings file in
+  Definition log_with (g : cfg) : res (list record) :=
     pass <- (if sc_filtering C then check_chain (sc_flt C) fverdict (filter_chain g) else Ok true) ;;
     let k := okind_of_name (output g) in
     Ok (action_el (sc_out C) (out_env g) (error_logging g) (sc_filtering C) (negb pass) k (output_arg g)
                   (message_errors g) (out_errors g k) (sc_err C) (the_message g)).
+  Definition log_exec (file : option (list byte)) : res (list record) := log_with (settings file).
 End System.
